@@ -15,7 +15,7 @@ from .rules import pairs as PR
 from .rules import codes as CD
 from .rules import members as MB
 from .rules.arity import rule_arity
-from .rules.wiring import rule_passthrough_sort, rule_passthrough_engine, rule_counter, rule_globalidx, rule_sorted, rule_infresolve, rule_uniquefrom, rule_emptyidx, rule_fillnone, rule_aligned, rule_autorefuse, rule_autoparam, rule_blockbcast, rule_emptycohorts, rule_axisorder, rule_normform, rule_absentmask, rule_passthrough_options, rule_predfamily, rule_scanmissing, rule_partialunknown, rule_zeroblock, rule_blocklabels, rule_axisrange, rule_qrange, rule_dtypenorm
+from .rules.wiring import rule_kwpass, rule_slotfill, rule_passthrough_sort, rule_passthrough_engine, rule_counter, rule_globalidx, rule_sorted, rule_infresolve, rule_uniquefrom, rule_emptyidx, rule_fillnone, rule_aligned, rule_autorefuse, rule_autoparam, rule_blockbcast, rule_emptycohorts, rule_axisorder, rule_normform, rule_absentmask, rule_passthrough_options, rule_predfamily, rule_scanmissing, rule_partialunknown, rule_zeroblock, rule_blocklabels, rule_axisrange, rule_qrange, rule_dtypenorm
 
 PROPERTIES = {
     "C01": {
@@ -90,7 +90,7 @@ PROPERTIES = {
         "explanation": "R-PLAN (incl. every block passes the re-indexer), R-ALGEBRA, R-COVER, R-PAIRS[dummy-axis], R-TOKEN (a chunked result computed together with another one is not overwritten by it)",
     },
     "C06": {
-        "rules": [rule_algebra, rule_order, rule_stable, rule_keys, rule_globalidx, rule_contig, PR.rule_forder, rule_enginefill, rule_allnanfill],
+        "rules": [rule_algebra, rule_order, rule_stable, rule_keys, rule_globalidx, rule_contig, PR.rule_forder, rule_enginefill, rule_allnanfill, rule_slotfill],
         "thorough": [selftest, seeded_regression],
         "technique": "monoid-table arg rows; taint of block order through unordered containers; stable-sort sites; key injectivity",
         "level_text": "Static, all-paths: the four arg-reduction blueprints pair value/index kernels with matching polarity, NaN discipline, "
@@ -143,7 +143,7 @@ PROPERTIES = {
         "explanation": "R-COINDEX, R-PASSTHROUGH[sort], R-SORTED, R-TOKEN (sort is part of the layer names: sorted and unsorted results computed together are not mixed), R-BLOCKLABELS (per-block label lists follow the sort flag)",
     },
     "C18": {
-        "rules": [M.rule_blockonly, PR.rule_unpermute, rule_token, rule_dispatch, rule_qrange, MB.rule_outalias, rule_arity, M.rule_novalid, rule_blocklabels],
+        "rules": [M.rule_blockonly, PR.rule_unpermute, rule_token, rule_dispatch, rule_qrange, MB.rule_outalias, rule_arity, M.rule_novalid, rule_blocklabels, rule_kwpass],
         "thorough": [selftest, seeded_regression],
         "technique": "registry check; CFG dominance of a refusal over graph construction; three-site agreement",
         "level_text": "Static, all-paths: order statistics declare no block/combine decomposition, a refusal dominates graph construction "
@@ -184,7 +184,7 @@ PROPERTIES = {
         "explanation": "R-COVER, R-KEYS, R-AXISKEY, R-TOKEN, R-LOOPSTORE",
     },
     "C04": {
-        "rules": [rule_algebra, rule_parallel, rule_infresolve, M.rule_subsumed, M.rule_finite, M.rule_nanfinal, rule_dispatch, rule_allnanfill],
+        "rules": [rule_algebra, rule_parallel, rule_infresolve, M.rule_subsumed, M.rule_finite, M.rule_nanfinal, rule_dispatch, rule_allnanfill, rule_slotfill],
         "thorough": [selftest, user_blueprints, seeded_regression],
         "technique": "registry constant-evaluation + table comparison (custom AST checker)",
         "level_text": "Static, all-paths: every registered blueprint's (block kernel, combine, intermediate fill, intermediate dtype, "
